@@ -36,7 +36,7 @@ P.update({
              text="Every message decoder and every read primitive instantiation x {all strings <=2 bytes, every truncation of every V1 wire, seeds + 1-byte substitutions, every count/length prefix at extreme values with 0..8 trailing bytes, unregistered keys}: 24M cases in quick; each must return without panic or process death (and within a loop-iteration budget when instrumentation is active).",
              note="20-minute hang guard per worker; worker death attributed to the mmap-journalled case", ref="4 C09"),
  "C10": dict(engine="wirex-workers", technique="bounded-exhaustive wire enumeration with exact per-call allocation measurement (TotalAlloc delta) in address-space-limited workers",
-             text="Same 24M-case space as C09; TotalAlloc delta around each single decode <= 4096+64*len(input) and the worker survives an 8 GiB address-space limit. Exact and deterministic (GOMAXPROCS=1, ReadMemStats).",
+             text="Same 24M-case space as C09; TotalAlloc delta around each single decode <= 16384+64*len(input) and the worker survives an 8 GiB address-space limit. Exact and deterministic (GOMAXPROCS=1, ReadMemStats).",
              note="budget constants calibrated on the pinned tree (max legit ratio 17 B/wire byte) and re-validated on all valid encodings in every run", ref="4 C10"),
  "C11": dict(engine="wirex", technique="exhaustive enumeration of every cut position of every canonical V1 encoding",
              text="Per type: every canonical V1 value (V2 of structural positions in thorough) x every cut 0..len-1 (3.9M prefixes in quick) must be rejected by the real decoder.",
@@ -72,7 +72,7 @@ P.update({
              text="The real codec registry, instrumented through a build overlay (scheduling points at every lock operation and before every statement touching the registry's fields, R/W events), is run under our scheduler for 8,244 scenarios (2 threads x <=2 ops, 3 threads x 1 op, 8-op alphabet, 3 initial states): every interleaving is executed (6.5M schedules; 12 scenarios to preemption bound 2); each execution's call/return history plus final look-ups must be linearizable w.r.t. a plain map, free of happens-before races and deadlocks. A free-running -race pass of the same operations is an adjunct only.",
              note="scheduling granularity = visible operations (validated: statement-granularity exploration yields the same 16,464 distinct outcomes); memory effects below happens-before not modelled", ref="3.5, 4 C19"),
  "C20": dict(engine="schedx", technique="sequential global-state invariant (deep hash of all package-level variables around every call) + preemption-bounded schedule exploration of independent Encode/Decode pairs on the instrumented build with an HB race monitor",
-             text="(a) Every Encode/Decode over V1 of all 170 types leaves a deep hash of all 20 package-level variables unchanged; (b) two threads running Encode+Decode of different values of the same type (all 170 self-pairs; cross-protocol and 3-thread frame scenarios in thorough) under the controlled scheduler, all schedules with <=1 preemption at function-entry granularity (quick) / <=2 at statement granularity (thorough): per-thread results equal the sequential ones, no HB race on package-level state, no deadlock.",
+             text="(a) Every Encode/Decode over V1 of all 170 types leaves a deep hash of all 20 package-level variables unchanged; (b) two threads running Encode+Decode of different values of the same type (all 170 self-pairs; cross-protocol and 3-thread frame scenarios in thorough) under the controlled scheduler, all schedules with <=1 preemption (quick) / <=2 (thorough) at statement granularity: per-thread results equal the sequential ones, no HB race on package-level state, no deadlock.",
              note="shared heap objects reachable only through pointers are covered by result comparison and the -race adjunct, not by the HB monitor; goroutines started by the library itself are not controlled", ref="3.5, 4 C20"),
 })
 
